@@ -68,7 +68,7 @@ func c20KindOf(f *flow.Func, e ast.Expr, depth int) *types.Var {
 		return nil
 	}
 	if v := c20Var(f, e); v != nil && depth < 3 {
-		defs := c20Defs(f, f.Node, v)
+		defs := c20Defs(f, c20DeclNodeOf(f, v), v)
 		if len(defs) == 1 && defs[0].rhs != nil {
 			return c20KindOf(f, defs[0].rhs, depth+1)
 		}
@@ -118,35 +118,62 @@ func c20Diff(c *core.Ctx) {
 
 	// the three classification buckets, by role: the local maps whose entries are copied into
 	// event.Delete / event.Create / event.Update
+	// (the copy loops may sit in applyConfig itself, in a closure of it, or in a same-package
+	// function/method applyConfig hands the three maps to — then the bucket is the argument)
 	buckets := map[string]*types.Var{}
 	notifyLoops := map[string]*ast.RangeStmt{}
-	ast.Inspect(f.Body, func(n ast.Node) bool {
-		rs, ok := n.(*ast.RangeStmt)
-		if !ok {
-			return true
-		}
-		bv := c20Var(f, rs.X)
-		if bv == nil {
-			return true
-		}
-		ast.Inspect(rs.Body, func(m ast.Node) bool {
-			as, ok := m.(*ast.AssignStmt)
+	notifyHost := f
+	for _, g := range reach(f, 2) {
+		g := g
+		gfd, _ := g.Node.(*ast.FuncDecl)
+		ast.Inspect(g.Body, func(n ast.Node) bool {
+			rs, ok := n.(*ast.RangeStmt)
 			if !ok {
 				return true
 			}
-			for _, s := range c20IndexStores(as) {
-				fld := c20FieldOf(f, s[0])
-				for role, ef := range evF {
-					if fld != nil && fld == ef {
-						buckets[role] = bv
-						notifyLoops[role] = rs
+			bv := c20Var(g, rs.X)
+			if bv == nil {
+				return true
+			}
+			role := ""
+			ast.Inspect(rs.Body, func(m ast.Node) bool {
+				if as, ok := m.(*ast.AssignStmt); ok {
+					for _, s := range c20IndexStores(as) {
+						fld := c20FieldOf(g, s[0])
+						for r, ef := range evF {
+							if fld != nil && fld == ef {
+								role = r
+							}
+						}
 					}
 				}
+				return true
+			})
+			if role == "" {
+				return true
 			}
+			if g.Body != f.Body {
+				// the ranged map must be a parameter; the bucket is what applyConfig passes for it
+				idx := c20ParamIndex(g, gfd, bv)
+				gObj, _ := g.Info.Defs[gfd.Name].(*types.Func)
+				bv = nil
+				if idx >= 0 && gObj != nil {
+					for _, call := range calls(f.Body, true) {
+						if fo, ok := f.Callee(call).(*types.Func); ok && fo == gObj && idx < len(call.Args) {
+							bv = c20Var(f, call.Args[idx])
+						}
+					}
+				}
+				if bv == nil {
+					return true
+				}
+				notifyHost = g
+			}
+			buckets[role] = bv
+			notifyLoops[role] = rs
 			return true
 		})
-		return true
-	})
+	}
 	for _, role := range []string{"deleted", "created", "updated"} {
 		if buckets[role] == nil {
 			c.Errorf("R-C20-2: anchor: in %s no local map is copied into the watcher event's %s entries", cons, evF[role].Name())
@@ -589,7 +616,7 @@ func c20Diff(c *core.Ctx) {
 			sprintf("%d abstract iteration ends file a name under 'updated', all with previous kind == new kind established (%d comparison(s))", fKind.n, len(kindAtoms)))
 	}
 
-	c20Notify(c, f, cons, buckets, notifyLoops, evF, wEntF, chanF)
+	c20Notify(c, notifyHost, cons, buckets, notifyLoops, evF, wEntF, chanF)
 }
 
 // c20Notify checks the per-watcher part of applyConfig: for every class the event map and the
@@ -737,4 +764,25 @@ func c20Notify(c *core.Ctx, f *flow.Func, cons string, buckets map[string]*types
 		fSend.report(c, "R-C20-2", cons+"|event sent after all classes", sends[0],
 			sprintf("%d states reach the send, all after the three loops", fSend.n))
 	}
+}
+
+// c20ParamIndex returns the position of v among the parameters of fd (-1 if it is none).
+func c20ParamIndex(g *flow.Func, fd *ast.FuncDecl, v *types.Var) int {
+	if fd == nil || fd.Type.Params == nil || v == nil {
+		return -1
+	}
+	i := 0
+	for _, fld := range fd.Type.Params.List {
+		if len(fld.Names) == 0 {
+			i++
+			continue
+		}
+		for _, id := range fld.Names {
+			if g.Info.Defs[id] == v {
+				return i
+			}
+			i++
+		}
+	}
+	return -1
 }
